@@ -2,8 +2,12 @@
 from facts import walk, callee_of, call_args, loc
 import sem, hirq, anchors, absx, thresholds, rope
 
-EXPLANATION = ("B1 identifier octet - the writer composes "
-               "class<<6 | structure<<5 | id (ids <= 30, else 0x1F) and the reader takes 2, 1, 5 bits in that order, 6 = 8-2 and 5 = 8-2-1; "
+EXPLANATION = ("B1 identifier octet - decided by exhaustive literal evaluation: the public TLV parser is interpreted on [X, 0x00, 0x5A] for every "
+               "identifier octet X with tag number < 31 (whatever it reads the octet with: nom bit parsers through helpers, shifts and masks, a table of "
+               "constants - rules/nomlit.py holds the exact models of the nom primitives on literal input) and must answer class X>>6 in X.690's numbering, "
+               "primitive / constructed by bit 6, number X & 0x1F and the untouched remainder; the identifier writer is interpreted for every "
+               "(class, structure, number <= 30) and must emit the one octet class<<6 | structure<<5 | number (above 30: 0x1F in the low bits first); "
+               "the reader gives back the triple the writer wrote; a header cut off before the length octet is answered with Incomplete; "
                "TagClass / TagStructure discriminants equal their from_u8 tables (evaluated for all 256 inputs); B2 length - the writer uses "
                "the short form iff length < 128 and the reader iff the first octet < 128 (same operator and constant on both sides), the "
                "long-form marker is count | 0x80 against len - 128, only definite forms are emitted; B3 BOOLEAN emits {0xFF} / {0x00}, "
@@ -13,7 +17,7 @@ EXPLANATION = ("B1 identifier octet - the writer composes "
                "length octets and the content - the payload octets, resp. the encodings of the children in order -, read off the final buffer (a rope of "
                "segments with positions as formal sums of segment lengths, rules/rope.py; a length that is computed by a sizing pass instead of measured - the sum of SZ(child) - is accepted iff SZ(t) = octets appended for t, proved by induction over the tree with the identifier / length octet counts predicted vs written decided on the threshold partition: B4.encoder-sizing), so it does not matter whether the length is written before the content or a "
                "placeholder is patched / replaced / inserted afterwards; the length octets are write_length(L), constants or L's low octet with L formally the content length, "
-               "and are evaluated at every change point of the partition induced by the branch conditions on L and by write_length's own against the minimal definite form; B7 the TLV parser's children loop ends only when the content is used up, keeps every child and continues with its remainder, and every error path is the failure of one of its primitives or the nesting bound; B2m/B5 the two arithmetic functions - "
+               "and are evaluated at every change point of the partition induced by the branch conditions on L and by write_length's own against the minimal definite form; B7 the TLV parser's children loop ends only when the content is used up, keeps every child and continues with its remainder, every error path is the failure of one of its primitives or the nesting bound, and what a child is given as its depth is the entry depth plus one (not a value that grows from sibling to sibling); B2m/B5 the two arithmetic functions - "
                "write_length and the INTEGER/ENUMERATED content encoder - are functions of one integer whose every branch condition is a "
                "comparison of the (possibly complemented) value shifted right by a constant with a constant (checked); such conditions "
                "can change only at finitely many change points, so the path taken and the octets emitted are decided exactly by "
@@ -104,14 +108,24 @@ def check_tlv_parser(ctx, f, R):
     outs = absx.Interp(f, B, unroll=1, result_combinators=True, generic_loops=True).run()
     params = [d for b, d in B.defs.items() if d['kind'] == 'param']
     rec = lambda t: t[0] == 'call' and t[1] == body
-    # the depth parameter by role: the parameter the recursive call passes on incremented
-    depth = set()
+    # the depth parameter by role: the one unsigned integer parameter of the parser (what it is called and how the step is spelled -
+    # `depth + 1` at the call, a `let`, `depth += 1` on the mutable parameter - does not matter: the term is the value at entry)
+    ints = [d for b, d in B.defs.items() if d['kind'] == 'param' and not d['proj'] and (d['pat'].get('ty') or '') in ('usize', 'u8', 'u16', 'u32', 'u64')]
+    depth = {('param', d['name']) for d in ints} if len(ints) == 1 else set()
+    # nesting-bound-counts-nesting - what a recursive call receives in the depth position is the entry depth, stepped by one at most:
+    # then the bound limits how deep elements nest, and an element nested less deeply than the bound is never refused for its depth.
+    # A value that grows from one child to the next (carried around the children loop) or steps by more makes the bound count
+    # something else - siblings, octets - and flat, well-formed elements are refused.
     for o in outs:
         for e in o.st.ev:
-            if e[0] == 'call' and e[1] == body:
-                for a in e[2]:
-                    if a[0] == 'bin' and a[1] == 'Add' and a[2][0] == 'param':
-                        depth.add(a[2])
+            if e[0] == 'call' and e[1] == body and ints and ints[0]['idx'] < len(e[2]):
+                a = sem.strip_site(e[2][ints[0]['idx']])
+                D = ('param', ints[0]['name'])
+                okd = a == D or a == ('bin', 'Add', D, ('lit', 1))
+                ctx.add(R + '.nesting-bound-counts-nesting', 'recursive call|%s' % absx.fmt(a)[:40], loc(e[3]), okd,
+                        ('the depth passed to a child depends on its position among its siblings (%s is carried from one iteration of the children loop to the next)' % absx.fmt(a)[:50]
+                         if sem.has(a, lambda x: x[0] == 'carried') else 'the depth passed to a child is %s, not the entry depth plus one' % absx.fmt(a)[:50]) +
+                        ': the nesting bound then refuses well-formed elements that are not deeply nested at all (many children, many values)')
     def bound_exceeded(o):
         for a, t in o.st.pc:
             if a[0] == 'bin' and len(a) == 4:
@@ -159,6 +173,146 @@ def check_tlv_parser(ctx, f, R):
     ctx.floor(R, 'success paths of the constructed arm', n_ok, 1)
     ctx.floor(R, 'generic iterations of the children loop', n_it, 1)
     ctx.floor(R, 'error paths of the TLV parser', n_err, 4)
+
+X690_CLASS = ('Universal', 'Application', 'Context', 'Private')          # X.690 8.1.2.2: bits 8-7 of the identifier octet
+X690_STRUCTURE = ('Primitive', 'Constructed')                             # X.690 8.1.2.5: bit 6
+
+def octet_ranges(xs, domain):
+    """`0xE0..0xFE, 0x41` - the octets xs written as runs that are consecutive within the evaluated domain"""
+    pos = {x: i for i, x in enumerate(domain)}
+    runs = []
+    for x in sorted(xs):
+        if runs and pos[x] == pos[runs[-1][1]] + 1:
+            runs[-1][1] = x
+        else:
+            runs.append([x, x])
+    return ', '.join('0x%02X' % a if a == b else '0x%02X..0x%02X' % (a, b) for a, b in runs)
+
+def check_identifier_octet(ctx, f):
+    """B1, decided by exhaustive literal evaluation - no bit parser, helper, shift, mask or table is looked for by name or shape.
+    Reader: the public TLV parser `parse_tag` is interpreted on the literal input `[X, 0x00, 0x5A]` for every identifier octet X
+    whose tag number is below 31 (31 announces the high-tag-number form, outside the property); whatever the reader is built from
+    (nom bit parsers through helpers, a byte read with shifts and masks, a table of constants), the one outcome must be
+    Ok((rest = [0x5A], element)) with class = X >> 6 in X.690's numbering, tag number = X & 0x1F, and a primitive resp. constructed
+    (empty) payload according to bit 6.  Writer: `write_type` is interpreted for every triple (class, structure, number 0..30) and must
+    emit the single octet class << 6 | structure << 5 | number (for numbers above 30: a first octet with 0x1F in the low bits).
+    Agreement: the reader's answer for the octet the writer emits for a triple is that triple."""
+    import nomlit
+    P = hirq.Body(f, f.body('lber::parse::parse_tag'))
+    ctx.analysed['bodies'].add(P.path)
+    pb = [b for b, d in P.defs.items() if d['kind'] == 'param']
+    inl = lambda c: c.startswith('lber::parse::') or c.startswith('lber::common::') or c.startswith('<lber::')
+    def read(octets):
+        I = absx.Interp(f, P, unroll=4, combinators=True, inline=inl, summaries=[nomlit.summary])
+        env = I.param_env()
+        env[pb[0]] = ('lit', bytes(octets))
+        return [o for o in I.run(env=env) if o.kind in ('val', 'ret', 'div', 'loop')]
+    domain = [x for x in range(256) if x & 0x1f != 0x1f]
+    decoded, unread = {}, {}
+    for x in domain:
+        res = read([x, 0x00, 0x5A])
+        v = res[0].val if len(res) == 1 and res[0].kind in ('val', 'ret') else None
+        got = None
+        if v is not None and v[0] == 'ctor' and v[1] == 'Ok' and len(v[2]) == 1 and v[2][0][0] == 'tuple' and len(v[2][0][1]) == 2 and v[2][0][1][1][0] == 'struct':
+            rest, st = v[2][0][1]
+            fl = dict(st[2])
+            cls, num, pl = fl.get('class', ('unk',)), fl.get('id', ('unk',)), fl.get('payload', ('unk',))
+            if cls[0] == 'ctor' and not cls[2] and cls[1].startswith('TagClass::') and num[0] == 'lit' and isinstance(num[1], int) \
+                    and pl[0] == 'ctor' and pl[1] in ('PL::P', 'PL::C') and len(pl[2]) == 1 and pl[2][0] in (('lit', b''), ('vec', ())):
+                got = (cls[1].split('::')[-1], 'Primitive' if pl[1] == 'PL::P' else 'Constructed', num[1], rest)
+        if got is None:
+            unread[x] = ('%d outcomes' % len(res)) if len(res) != 1 else absx.fmt(res[0].val)[:80] if res[0].kind in ('val', 'ret') else res[0].kind
+        else:
+            decoded[x] = got
+    here = loc(P.root)
+    ctx.add('B1.reader-identifier-octet', 'decoded', here, not unread,
+            'interpreted on [X, 0x00, 0x5A] for all %d identifier octets X with tag number < 31: for octets %s the TLV parser does not answer with one literal Ok((rest, element)) (%s)'
+            % (len(domain), octet_ranges(unread, domain), list(unread.values())[:1]))
+    def facet(inst, idx, want, what, fmtv=str):
+        by = {}
+        for x, g in decoded.items():
+            if g[idx] != want(x):
+                by.setdefault((g[idx], want(x)), []).append(x)
+        msg = '; '.join('octets %s decode as %s %s (X.690: %s)' % (octet_ranges(xs, domain), what, fmtv(g), fmtv(w)) for (g, w), xs in sorted(by.items(), key=lambda kv: kv[1][0]))
+        ctx.add('B1.reader-identifier-octet', inst, here, not by, 'interpreted for all %d identifier octets with tag number < 31: %s' % (len(domain), msg))
+    facet('class', 0, lambda x: X690_CLASS[x >> 6], 'class')
+    facet('structure', 1, lambda x: X690_STRUCTURE[(x >> 5) & 1], 'structure')
+    facet('number', 2, lambda x: x & 0x1f, 'tag number')
+    facet('remainder', 3, lambda x: ('lit', b'\x5a'), 'remainder', lambda t: absx.fmt(t))
+    ctx.floor('B1', 'identifier octets decoded by literal evaluation', len(decoded) + len(unread), 248)
+    # a header that has not arrived completely is a request for more input, never an answer: nothing, and the identifier octet alone
+    short = []
+    for octets in ([], [0x30], [0x04], [0xA3]):
+        res = read(octets)
+        v = res[0].val if len(res) == 1 and res[0].kind in ('val', 'ret') else None
+        while v is not None and v[0] == 'tryerr':          # the failure of a `?` (possibly handed up through several inlined callees) is that Err value
+            v = v[1]
+        if not (v is not None and v[0] == 'ctor' and v[1] == 'Err' and v[2] and v[2][0][0] == 'ctor' and v[2][0][1] == 'Err::Incomplete'):
+            short.append((bytes(octets).hex() or '(empty)', absx.fmt(v)[:60] if v is not None else [o.kind for o in res]))
+    ctx.add('B1.reader-short-input-asks-for-more', 'parse_tag', here, not short,
+            'interpreted on literal inputs that end before the length octet: the TLV parser must answer Incomplete, found (input, answer) %s' % short[:3])
+
+    # ---- writer: every (class, structure, number) triple
+    W = hirq.Body(f, f.body('lber::write::write_type'))
+    ctx.analysed['bodies'].add(W.path)
+    def param_of(ty):
+        c = [b for b, d in W.defs.items() if d['kind'] == 'param' and not d['proj'] and hirq.strip_refs((d.get('pat') or {}).get('ty') or '') == ty]
+        return c[0] if len(c) == 1 else None
+    pc_, ps_, pn_ = param_of('lber::common::TagClass'), param_of('lber::common::TagStructure'), param_of('u64')
+    sinks = [('param', d['name']) for b, d in W.defs.items() if d['kind'] == 'param' and not d['proj'] and b not in (pc_, ps_, pn_)]
+    if None in (pc_, ps_, pn_) or len(sinks) != 1:
+        ctx.fail('anchor-missing', 'identifier writer parameters', loc(W.root), 'the identifier writer must take one sink, one TagClass, one TagStructure and one u64 tag number')
+        return
+    def emitted(c, s, n):
+        """per outcome: the octets the writer hands to its sink (the one parameter that is not part of the triple), in order (None for
+        an octet that is not a literal)"""
+        I = absx.Interp(f, W, unroll=12, combinators=True)
+        env = I.param_env()
+        env[pc_], env[ps_], env[pn_] = ('ctor', 'TagClass::' + X690_CLASS[c], ()), ('ctor', 'TagStructure::' + X690_STRUCTURE[s], ()), ('lit', n)
+        res = []
+        for o in I.run(env=env):
+            if o.kind not in ('val', 'ret', 'div', 'loop'):
+                continue
+            got = []
+            for e in o.st.ev:
+                if e[0] == 'call' and e[1].rsplit('::', 1)[-1] in ('write', 'write_all', 'push', 'extend_from_slice') and len(e[2]) == 2 and e[2][0] == sinks[0]:
+                    a = e[2][1]
+                    if a[0] == 'array':
+                        got += [x[1] & 0xff if x[0] == 'lit' and isinstance(x[1], int) else None for x in a[1]]
+                    elif a[0] == 'lit' and isinstance(a[1], bytes):
+                        got += list(a[1])
+                    elif a[0] == 'lit' and isinstance(a[1], int) and not isinstance(a[1], bool):
+                        got.append(a[1] & 0xff)
+                    else:
+                        got.append(None)
+            res.append((o.kind, got))
+        return res
+    wrong, disagree, n_tr = [], [], 0
+    for c in range(4):
+        for s in range(2):
+            for n in range(31):
+                n_tr += 1
+                want = c << 6 | s << 5 | n
+                res = emitted(c, s, n)
+                if len(res) != 1 or res[0][0] == 'div' or res[0][1] != [want]:
+                    wrong.append(((X690_CLASS[c], X690_STRUCTURE[s], n), [[hex(x) if x is not None else '?' for x in g] for k, g in res][:2], hex(want)))
+                elif decoded.get(want, (None,) * 4)[:3] != (X690_CLASS[c], X690_STRUCTURE[s], n) and want in decoded:
+                    disagree.append(((X690_CLASS[c], X690_STRUCTURE[s], n), hex(want), decoded[want][:3]))
+    ctx.add('B1.writer-low-tags', 'id <= 30', loc(W.root), not wrong,
+            'interpreted for all %d triples (class, structure, number 0..30): the identifier octet is not class<<6 | structure<<5 | number at (triple, emitted, expected) %s' % (n_tr, wrong[:3]))
+    ctx.add('B1.table-agreement', 'writer vs reader', loc(W.root), not disagree,
+            'for all %d triples (class, structure, number 0..30): the reader does not give back the triple the writer encoded at (triple, octet, read back) %s' % (n_tr, disagree[:3]))
+    ctx.floor('B1', 'triples (class, structure, number) the writer was interpreted for', n_tr, 248)
+    wrong = []
+    for c in range(4):
+        for s in range(2):
+            for n in (31, 127, 128, 16383, 16384, 2 ** 32):
+                want = c << 6 | s << 5 | 0x1f
+                res = emitted(c, s, n)
+                if not res or any(k == 'div' or not g or g[0] != want or len(g) < 2 for k, g in res):
+                    wrong.append(((X690_CLASS[c], X690_STRUCTURE[s], n), [[hex(x) if x is not None else '?' for x in g[:2]] for k, g in res][:2], hex(want)))
+    ctx.add('B1.writer-high-tags', 'id > 30', loc(W.root), not wrong,
+            'identifier octet for ids > 30 does not use the 0x1F escape followed by the number (triple, first octets, expected first octet): %s' % wrong[:3])
 
 LVAR = ('var', 'L')
 
@@ -655,47 +809,7 @@ def check_encoder(ctx, f, ref_len_octets, pts_wl):
 def run(ctx):
     f = ctx.facts
     # ------------------------------------------------------------------ B1 identifier octet
-    W = hirq.Body(f, f.body('lber::write::write_type'))
-    ctx.analysed['bodies'].add(W.path)
-    outs = absx.Interp(f, W, unroll=1).run()
-    firsts = {}
-    for o in outs:
-        ws = [e for e in o.st.ev if e[0] == 'call' and e[1].endswith('::write')]
-        gt30 = next((t for a, t in o.st.pc if a == ('bin', 'Gt', ('param', 'id'), ('lit', 30))), None)
-        if ws and gt30 is not None:
-            firsts[gt30] = ws[0][2][1]
-    def type_byte_ok(t, low):
-        # [ ((class as u8 << 6) | (structure as u8 << 5)) | low ]
-        if t[0] != 'array' or len(t[1]) != 1:
-            return False
-        b = t[1][0]
-        if not (b[0] == 'bin' and b[1] == 'BitOr' and b[3] == low):
-            return False
-        hi = b[2]
-        return hi == ('bin', 'BitOr', ('bin', 'Shl', ('cast', ('param', 'class'), 'u8'), ('lit', 6)), ('bin', 'Shl', ('cast', ('param', 'structure'), 'u8'), ('lit', 5)))
-    ctx.add('B1.writer-low-tags', 'id <= 30', loc(W.root), False in firsts and type_byte_ok(firsts[False], ('cast', ('param', 'id'), 'u8')),
-            'identifier octet for ids <= 30 is not class<<6 | structure<<5 | id: %s' % absx.fmt(firsts.get(False, ('unk',)))[:120])
-    ctx.add('B1.writer-high-tags', 'id > 30', loc(W.root), True in firsts and type_byte_ok(firsts[True], ('lit', 0x1f)),
-            'identifier octet for ids > 30 does not use the 0x1F escape')
-    widths = {}
-    for name in ('class_bits', 'pc_bit', 'tagnr_bits'):
-        B = hirq.Body(f, f.body('lber::parse::' + name))
-        ctx.analysed['bodies'].add(B.path)
-        takes = [n for n, c in walk(B.root) if n['k'] == 'Call' and (callee_of(n) or '') == 'nom::bits::streaming::take']
-        widths[name] = hirq.const_eval(f, takes[0]['args'][0]) if len(takes) == 1 else None
-        maps = [hirq.local_of(a) or (a.get('inst') or a.get('def')) for n, c in walk(B.root) if n['k'] == 'Call' and (callee_of(n) or '') == 'nom::combinator::map_opt' for a in n['args'][1:]]
-        if name == 'class_bits':
-            ctx.add('B1.reader-class-table', name, loc(B.root), maps == ['lber::common::TagClass::from_u8'], 'class bits are not mapped through TagClass::from_u8')
-        if name == 'pc_bit':
-            ctx.add('B1.reader-structure-table', name, loc(B.root), maps == ['lber::common::TagStructure::from_u8'], 'P/C bit is not mapped through TagStructure::from_u8')
-    ctx.add('B1.reader-widths', 'class/pc/tag', '', widths == {'class_bits': 2, 'pc_bit': 1, 'tagnr_bits': 5}, 'reader takes %s bits, expected 2/1/5' % widths)
-    ctx.add('B1.shifts-match-widths', 'writer vs reader', '', widths.get('class_bits') is not None and 8 - widths['class_bits'] == 6 and 8 - widths['class_bits'] - widths['pc_bit'] == 5,
-            'writer shifts (6, 5) do not equal 8-classbits and 8-classbits-pcbits')
-    H = hirq.Body(f, f.body('lber::parse::parse_type_header'))
-    ctx.analysed['bodies'].add(H.path)
-    tup = [n for n, c in walk(H.root) if n['k'] == 'Call' and (callee_of(n) or '').startswith('nom::sequence::tuple')]
-    order = [(x.get('inst') or x.get('def') or '').split('::')[-1] for x in tup[0]['args'][0]['elems']] if len(tup) == 1 and tup[0]['args'][0]['k'] == 'Tup' else None
-    ctx.add('B1.reader-order', 'parse_type_header', loc(H.root), order == ['class_bits', 'pc_bit', 'tagnr_bits'], 'identifier fields are read in order %s' % order)
+    check_identifier_octet(ctx, f)
     # discriminants vs from_u8, evaluated for all 256 inputs
     for enum, fn in (('lber::common::TagClass', 'lber::common::TagClass::from_u8'), ('lber::common::TagStructure', 'lber::common::TagStructure::from_u8')):
         discr = f.discr(enum)
